@@ -35,6 +35,7 @@ def main():
     ap.add_argument("--tier", default="quick")
     ap.add_argument("--builds", default="py")
     ap.add_argument("--seed", type=int, default=0)
+    ap.add_argument("--no-save", action="store_true")
     a = ap.parse_args()
     src = a.src
     name = a.name or os.path.basename(src.rstrip("/"))
@@ -73,7 +74,7 @@ def main():
                                   "inconclusive": [ln[:200] for ln in outc.splitlines() if ln.startswith("INCONCLUSIVE")][:1]}
             print("   %s -> exit %s %s %s" % (pid, rcc, mechs[:4], obs["checks"][pid]["inconclusive"]))
         shutil.rmtree(evd, ignore_errors=True)
-        if confirmed or a.cmd == "recheck":
+        if (confirmed or a.cmd == "recheck") and not a.no_save:
             dst = os.path.join(VERIF, "seeded", name)
             os.makedirs(dst, exist_ok=True)
             for f in ("patch.diff", "demo.py"):
